@@ -144,6 +144,26 @@ func (c16) Run(c *Ctx, i int) CaseResult {
 		ops = append(ops, op)
 		names = append(names, name)
 	}
+	if k >= 2 && r.Intn(3) == 0 {
+		// members that are the same document and operation name and differ only in their variables — in ways a careless
+		// rendering of the variables does not show (`map[k:u1 s:true]` is both {"k":"u1 s:true"} and {"k":"u1","s":true})
+		text := `query Near($k: ID = "u2", $s: Boolean = false) { user(id: $k) { firstName nick @include(if: $s) } allUsers @skip(if: $s) { lastName } }`
+		pairs := [][2]map[string]interface{}{
+			{{"k": "u1 s:true"}, {"k": "u1", "s": true}},
+			{{"k": "u3"}, {"k": "u3", "s": false}},
+			{{"k": "u1"}, {"k": "u3"}},
+			{{}, {"s": true}},
+			{{"k": "u2 s:false"}, {"k": "u2", "s": false}},
+		}
+		pr := pairs[r.Intn(len(pairs))]
+		a, b := 0, 1+r.Intn(k-1)
+		if r.Intn(2) == 0 {
+			pr[0], pr[1] = pr[1], pr[0]
+		}
+		ops[a] = map[string]interface{}{"operationName": "Near", "query": text, "variables": pr[0]}
+		ops[b] = map[string]interface{}{"operationName": "Near", "query": text, "variables": pr[1]}
+		names[a], names[b] = "Near", "Near"
+	}
 	// the completion order
 	order := make([]int, k)
 	for j := range order {
